@@ -262,11 +262,13 @@ def layouts(prog, fn, depth=3, cap=400000, mode="socket"):
                 dsc.pop(L, None)
                 if rv["k"] == "agg" and rv.get("ak") == "adt" and str(rv.get("def", "")).endswith(("option::Option", "result::Result")) and rv.get("variant") in _VIDX:
                     env[(L,)] = rv["variant"]
-                elif rv["k"] == "agg" and rv.get("ak") == "tuple":
+                elif rv["k"] == "agg" and (rv.get("ak") == "tuple" or (rv.get("ak") == "adt" and rv.get("fields") and len(rv["fields"]) == len(rv["ops"]))):
+                    # facts travel inside tuples and plain structs (a local `struct Addr { atyp, addr, port }` instead of a tuple)
                     for i, o in enumerate(rv["ops"]):
                         pl = op_place(o)
+                        fname = "f:%d" % i if rv.get("ak") == "tuple" else "f:%s" % rv["fields"][i]
                         if pl and len(pl) == 1 and (pl[0],) in env:
-                            env[(L, "f:%d" % i)] = env[(pl[0],)]
+                            env[(L, fname)] = env[(pl[0],)]
                 elif rv["k"] == "use" and "k" not in rv["a"]:
                     pl = op_place(rv["a"])
                     if pl and len(pl) == 1:
